@@ -168,7 +168,7 @@ class Rig:
 
 def addr_for(i, v6=False):
     if v6:
-        return (f"2001:db8::{i + 1:x}", 30490, 0, 0)
+        return (f"2001:db8::{(i + 1) >> 16:x}:{(i + 1) & 0xFFFF:x}", 30490, 0, 0)
     return (f"10.{(i >> 16) & 255}.{(i >> 8) & 255}.{i & 255}", 30490)
 
 
